@@ -36,6 +36,8 @@ func main() {
 		}
 		os.Stdout.Write(b)
 		fmt.Println()
+	case "locks":
+		os.Exit(locksCmd("/repo"))
 	case "mutants":
 		os.Exit(mutantsCmd(os.Args[2:]))
 	case "list":
